@@ -1557,7 +1557,7 @@ class Solid:
                 is_cordon = True
             elif v.name == 'color':
                 editor_color = Vec.from_str(v.value, 255, 255, 255)
-            elif v.name == 'group':
+            elif v.name in ('groupid', 'group'):
                 group_id = int(v.value)
             elif v.name == 'visgroupid':
                 try:
@@ -2689,7 +2689,7 @@ class Entity(MutableMapping[str, str]):
                             logical_pos = editor_prop.value
                         elif editor_prop.name == 'comments':
                             comment = editor_prop.value
-                        elif editor_prop.name == 'group':
+                        elif editor_prop.name in ('groupid', 'group'):
                             group_ids.append(int(editor_prop.value))
                         elif editor_prop.name == 'visgroupid':
                             try:
@@ -3511,7 +3511,7 @@ class EntityGroup:
             vmf_file,
             props.int('id', -1),
             editor_block.bool('visgroupshown', True),
-            editor_block.bool('visgroupsautoshown', True),
+            editor_block.bool('visgroupautoshown', True),
             editor_block.vec('color', 255, 255, 255),
         )
 
